@@ -71,6 +71,35 @@ fn emit_seq(ctx: &mut Ctx, cap: usize, evs: &[Ev]) {
     ctx.emit(l.finish(&out));
 }
 
+/// History with real waiting: event i is issued once `mono[i]` ms have elapsed since the tracker was
+/// created (the TtlCache expires on `Instant::now()`, which cannot be injected).
+fn emit_exp(ctx: &mut Ctx, cap: usize, evs: &[(u64, Ev)]) {
+    let evs2 = evs.to_vec();
+    let out = guarded(move || {
+        let mut tr: TtlCache<ConnectionKey, TcpTimestamp> = TtlCache::new(cap);
+        let start = std::time::Instant::now();
+        let mut outs = vec![];
+        for (mono, e) in &evs2 {
+            let target = std::time::Duration::from_millis(*mono);
+            let el = start.elapsed();
+            if el < target {
+                std::thread::sleep(target - el);
+            }
+            VERIF_CLOCK_MS.store(e.wall, Ordering::SeqCst);
+            let conn = Connection { src_ip: ip(e.src), src_port: e.sport, dst_ip: ip(e.dst), dst_port: e.dport };
+            let (c, s) = check_ts_tcp(&mut tr, &conn, e.from_client, e.ts);
+            outs.push(show_out(&c, &s));
+        }
+        outs.join(",")
+    });
+    let mut l = Line::op("C19.exp");
+    l.usize(cap);
+    l.list(evs, |l, (m, e)| {
+        l.nat(*m).nat(e.wall).bool(e.src.0).nat(e.src.1).nat(e.sport).bool(e.dst.0).nat(e.dst.1).nat(e.dport).bool(e.from_client).nat(e.ts);
+    });
+    ctx.emit(l.finish(&out));
+}
+
 fn ev(conn: u32, from_client: bool, wall: u64, ts: u32) -> Ev {
     // connection `conn`: client 10.0.0.<conn>:40000+conn -> server 10.0.0.254:80; the server's segments
     // carry the reversed tuple
@@ -225,6 +254,20 @@ pub fn run(ctx: &mut Ctx) {
             }
         }
     }
+    if ctx.tier == Tier::Thorough {
+        // every interval 25..=2000 ms and a spread of longer ones
+        let mut all: Vec<u64> = (25..=2000).collect();
+        for _ in 0..300 {
+            all.push(r.range(2001, 600_000));
+        }
+        for dt in all {
+            for dv in threshold_dvs(dt) {
+                if dv <= u32::MAX as u64 {
+                    pair(ctx, dt, 2_000_000_000, 2_000_000_000u32.wrapping_add(dv as u32), dv % 2 == 1);
+                }
+            }
+        }
+    }
     // ---- 4. backward and wrapping movement
     for &dt in &[25u64, 50, 99, 100, 101, 1000, 10_000, 600_000] {
         for &k in &[1u32, 4, 5, 6, 24, 25, 100, 149, 150, 151, 1499, 1500, 1501, 14_999, 15_000, 15_001, 150_000, 0x7fff_fffe, 0x7fff_ffff, 0x8000_0000, 0x8000_0001] {
@@ -336,6 +379,29 @@ pub fn run(ctx: &mut Ctx) {
             }
         }
         run_pkts(ctx, *r.pick(&[1usize, 2, 16]), &pk);
+    }
+    // ---- 8. one deliberate expiry scenario on the cache's own clock (31 s of real time; thorough only):
+    //         a reference and a bad marker both expire; an expired entry still occupies its slot
+    if ctx.tier == Tier::Thorough {
+        let a0 = ev(1, true, T0, 1000);
+        let b0 = ev(2, true, T0, 5000);
+        let b1 = ev(2, true, T0 + 10, 5001); // too soon: bad marker
+        emit_exp(
+            ctx,
+            2,
+            &[
+                (0, a0.clone()),
+                (0, b0.clone()),
+                (5, b1),
+                (1000, ev(1, true, T0 + 1000, 2000)),  // live: 1000 Hz
+                (31_000, ev(1, true, T0 + 31_000, 32_000)), // reference expired: stored again
+                (31_000, ev(2, true, T0 + 31_000, 36_000)), // bad marker expired: stored again
+                (32_000, ev(1, true, T0 + 32_000, 32_100)), // against the new reference: 100 Hz
+                (32_000, ev(2, true, T0 + 32_000, 37_000)),
+                (32_000, ev(3, true, T0 + 32_000, 1)),      // third key: evicts the oldest
+                (32_001, ev(1, true, T0 + 33_000, 32_200)),
+            ],
+        );
     }
     VERIF_CLOCK_MS.store(u64::MAX, Ordering::SeqCst);
 }
